@@ -41,6 +41,15 @@ def cases(tier, seed):
     con = common.thin(common.contend(lvl), 4 if tier != "thorough" else 1)
     out = common.add_algs(buf + con, lambda c: common.shipped(
         c, lvl, "diag", greedy=(tier == "thorough")), feasible_only=True)
+    if tier == "thorough":
+        b3 = common.add_algs(common.buffer3_scope(), lambda c: [
+            {"kind": "queue"}, {"kind": "batch", "p": 1, "min": 1},
+            {"kind": "batch", "p": 2, "min": 1}])
+        out += b3
+        # task delays keep data resident longer
+        out = [(sc, dict(c, delay={"mode": "choice", "arity": 3})
+                if c["alg"]["kind"] in ("queue", "batch") else c)
+               for sc, c in out]
     return common.rotate(out, seed)
 
 
@@ -64,7 +73,8 @@ def run(rep, tier, seed):
         if world.feasible(cc):
             extra.append((sc + "/minutes", cc))
     cs = cs + extra
-    e1.sweep(rep, cs, monitors_for, {})
+    e1.sweep(rep, cs, monitors_for,
+             {"delay": 1} if tier == "thorough" else {})
     e1.conformance(rep, cs[::max(1, len(cs) // 40)])
     # rate above the maximum must raise at the first deposit
     for case in overrate_cases():
